@@ -1072,6 +1072,9 @@ def std_summary(tb, path, upath, fr, args):
         ty = path[len("core::default::impls::<impl core::default::Default for "):-len(">::default")]
         if ty in INT_BITS or ty == "bool":
             return C(0)
+    if path.startswith("<core::option::Option<T> as core::ops::try_trait::FromResidual<core::option::Option<core::convert::Infallible>>>::from_residual") and len(args) == 1:
+        # `None?` in a function returning Option: the residual of an Option is None, and from_residual(None) is None (std)
+        return ("aggr", ("adt", "core::option::Option", "None", ()), ())
     if path in ("core::option::Option::<&T>::cloned", "core::option::Option::<&T>::copied"):
         return ("optderef", args[0])
     if path in ("core::option::Option::<T>::unwrap", "core::option::Option::<T>::expect"):
